@@ -198,6 +198,45 @@ func (b *cfBuilder) wrap(form string, inner []*S) []*S {
 
 // c06Family enumerates the jump-placement programs for all chains of the given depth.
 // stride > 1 sub-samples deterministically (used when the family only feeds another check's corpus).
+// cfWithWork puts an accumulator step before every mark of the statement tree and lets the mark print the accumulator.
+func cfWithWork(ss []*S, k *int) []*S {
+	var out []*S
+	acc := v("acc", TInt)
+	for _, s := range ss {
+		if s.K == "print" {
+			*k++
+			var step *S
+			switch *k % 4 {
+			case 0:
+				step = &S{K: "opassign", Lhs: []*E{acc}, Op: "-", E: &E{K: "neg", Ty: TInt, X: &E{K: "int", Ty: TInt, V: 48, Spell: "'0'"}}}
+			case 1:
+				step = &S{K: "assign", Lhs: []*E{acc}, Exprs: []*E{bin("+", TInt, bin("+", TInt, acc, lit(TInt, 1)), lit(TInt, 2))}}
+			case 2:
+				step = &S{K: "opassign", Lhs: []*E{acc}, Op: "+", E: &E{K: "neg", Ty: TInt, X: &E{K: "int", Ty: TInt, V: 2, Spell: "'\\x02'"}}}
+			default:
+				step = &S{K: "incdec", Lhs: []*E{acc}, D: 1}
+			}
+			c := *s
+			c.Exprs = append(append([]*E{}, s.Exprs...), acc)
+			out = append(out, step, &c)
+			continue
+		}
+		c := *s
+		c.Then, c.Else, c.Body, c.Def = cfWithWork(s.Then, k), cfWithWork(s.Else, k), cfWithWork(s.Body, k), cfWithWork(s.Def, k)
+		if s.Cases != nil {
+			c.Cases = nil
+			for _, cs := range s.Cases {
+				c.Cases = append(c.Cases, &Case{Vals: cs.Vals, Body: cfWithWork(cs.Body, k)})
+			}
+		}
+		out = append(out, &c)
+	}
+	if ss == nil {
+		return nil
+	}
+	return out
+}
+
 func c06Family(depth int, stride int) []*Prog {
 	var progs []*Prog
 	var chains [][]string
@@ -262,6 +301,13 @@ func c06Family(depth int, stride int) []*Prog {
 					inner = b.wrap(chain[i], inner)
 				}
 				id := fmt.Sprintf("cf/%v/%s/guarded=%v/tight=%v", chain, jump, guarded, tight)
+				// every seventh program carries work between the marks: a local accumulator stepped by constants that
+				// reach the peephole pass as several instructions (negated character constants, two constant steps in a
+				// row) - statements that the optimizer rewrites inside the blocks whose lengths the jumps span
+				if n%7 == 3 {
+					inner = append([]*S{{K: "decl", Names: []string{"acc"}, Exprs: []*E{lit(TInt, 0)}}}, cfWithWork(inner, new(int))...)
+					id += "/work"
+				}
 				p := &Prog{ID: id, Pkg: "main", Main: "Main", NeedChoice: true}
 				p.Funcs = []*Func{{Name: "more", Params: []string{"n"}, PTypes: []*Ty{TInt}, Results: []*Ty{TBool}, Body: []*S{ret(bin("<", TBool, v("n", TInt), lit(TInt, 2)))}}, {Name: "F", Body: inner}, {Name: "Main", Body: []*S{{K: "expr", E: &E{K: "call", Fn: "F"}, NRes: 0}, {K: "print", Ln: true, Exprs: []*E{{K: "str", Ty: TString, S: "end"}}}}}}
 				progs = append(progs, p)
@@ -272,7 +318,7 @@ func c06Family(depth int, stride int) []*Prog {
 }
 
 func checkC06(c *Ctx) {
-	c.Rule = "programs = the jump-placement family (every nesting chain of depth <= D over 17 compound forms (plus 5 further forms - loop / branch conditions ending in a negated operand, switches with an empty clause that matches - combined with 6 of them) x {break, continue, return} x {bare, guarded}) + seeded random control-flow programs whose conditions are test inputs; every program explored by TLC on ALL input paths (<= 10 inputs per path) and every path replayed on goatlang; distinct_nontrivial = distinct (program, input path) behaviours"
+	c.Rule = "programs = the jump-placement family (every nesting chain of depth <= D over 17 compound forms (plus 5 further forms - loop / branch conditions ending in a negated operand, switches with an empty clause that matches - combined with 6 of them) x {break, continue, return} x {bare, guarded}; every seventh program with accumulator steps that the optimizer rewrites between the marks) + seeded random control-flow programs whose conditions are test inputs; every program explored by TLC on ALL input paths (<= 10 inputs per path) and every path replayed on goatlang; distinct_nontrivial = distinct (program, input path) behaviours"
 	c.Assumptions = []string{"MiniGo.tla is calibrated against the Go toolchain on every behaviour of a deterministic sample of the family and of every random program", "paths that consume more than 10 test inputs are not explored"}
 	depth := c.pick(2, 3)
 	progs := c06Family(depth, c.pick(1, 3)) // thorough: every third chain of depth 3 (the full family takes over half an hour)
